@@ -136,7 +136,7 @@ CHECKS.update({
                  "build the documented graph; the other algorithms (numpy random / image grids / Chow-Liu) and dump / load are covered by the bounded stand-in only (every algorithm over small argument spaces, independent validator, round trip, three abstractions "
                  "and explicit factories)"),
     "C15": ("other", "contract obligations on the STRUCTURAL clauses: TorchSumLayer.sample returns, per fold / output unit / sample, the sample of the "
-            "component drawn from Categorical(weight) over the same axis h*Ki+i the forward pass weights (and refuses unnormalised weights) - also on a second call after the weights changed (the draw uses the current weights; same for the fused Tucker and tensor-dot layers) -, Hadamard / "
+            "component drawn from Categorical(weight) over the same axis h*Ki+i the forward pass weights (and refuses unnormalised weights) - also on a second call after the weights changed (the draw uses the current weights; same for the fused Tucker and tensor-dot layers) -, TorchCategoricalLayer.sample draws from the layer's own logits in layout (F, K, N), Hadamard / "
             "Kronecker (arity 2, 3) samples add the inputs' assignments in the layers' unit order, _pad_samples fills the column of the layer's own variable "
             "(non-contiguous ids) and no other, no sampling method updates a possibly aliased tensor in place - for all F, K, N, D; the DISTRIBUTIONAL clause "
             "(frequencies converge) is statistical: a BOUNDED seeded stand-in (20000 samples per circuit vs exact probabilities, 6.5-sigma cell thresholds), "
